@@ -22,7 +22,7 @@ from framework import Suite
 
 INT = r"-?(?:0|[1-9][0-9]*)"
 RE_SEG_EVAL = re.compile(r"^([A-Za-z_][A-Za-z0-9_]*)(?:\[" + INT + r"\])+$")
-RE_FINAL_IDX = re.compile(r"^" + INT + r"(?:\]\[" + INT + r")*$")
+RE_FINAL_IDX = re.compile(r"^ *" + INT + r"(?:\]\[ *" + INT + r")*$")
 RE_COMP = re.compile(r"([A-Za-z_][A-Za-z0-9_]*)((?:\[" + INT + r"\])*)")
 RE_IDENT = re.compile(r"^[A-Za-z_][A-Za-z0-9_]*$")
 
@@ -71,6 +71,8 @@ class ExprRecogniser:
         return True
 
     def term(self):
+        while self.peek() == " ":
+            self.i += 1
         if self.peek() == "-":
             self.i += 1
         return self.atom()
@@ -126,6 +128,8 @@ def mod():
 # values: JSON form  int | {"d": {...}} plain dict | {"l": [...]} list | {"t": {...}} dotdict instance
 # ------------------------------------------------------------------------------------------------
 def wire(v):
+    if v is None:
+        return "N"
     if isinstance(v, int):
         return "i%d" % v
     if "l" in v:
@@ -136,7 +140,7 @@ def wire(v):
 
 
 def build(v, dotdict):
-    if isinstance(v, int):
+    if v is None or isinstance(v, int):
         return v
     if "l" in v:
         return [build(e, dotdict) for e in v["l"]]
@@ -151,6 +155,8 @@ def build(v, dotdict):
 def show(o, base):
     if isinstance(o, bool):
         return "?bool"
+    if o is None:
+        return "N"
     if isinstance(o, int):
         return "i%d" % o
     if isinstance(o, base):
@@ -195,7 +201,7 @@ class IdxExpr:
         self.dotted = "." in text
         self.tree = None
         try:
-            tree = ast.parse(text, mode="eval")
+            tree = ast.parse(text.lstrip(" "), mode="eval")     # eval() strips leading blanks
         except (SyntaxError, ValueError):
             return
         for node in ast.walk(tree):
@@ -272,7 +278,7 @@ def parse_key(key):
 
 
 RE_NAME = re.compile(r"[A-Za-z_][A-Za-z0-9_]*")
-RE_INT_ONLY = re.compile("^" + INT + "$")
+RE_INT_ONLY = re.compile(r"^ *-?(?:0+|[1-9][0-9]*)$")      # what Python reads as a decimal literal
 
 
 def parse_key_text(key):
@@ -352,7 +358,7 @@ def spec_get(t, comps):
 
 def spec_value(v):
     """the tree a value becomes when it is assigned; MISSING if the assignment has no defined outcome"""
-    if isinstance(v, int):
+    if v is None or isinstance(v, int):
         return v
     if "l" in v:
         return ("L", [spec_value(e) for e in v["l"]])
@@ -450,12 +456,28 @@ def spec_leaves(t, prefix=""):
     return out
 
 
+def path_id(comps, tree):
+    """a literal path as text with plain non-negative indices"""
+    out, t = [], tree
+    for name, idx in comps:
+        seg = name
+        t = t[1].get(name) if is_level(t) else None
+        for i in idx:
+            if is_list(t) and -len(t[1]) <= i < len(t[1]):
+                i, t = i % len(t[1]), t[1][i]
+            else:
+                t = None
+            seg += "[%d]" % i
+        out.append(seg)
+    return ".".join(out)
+
+
 def raw_keys_ok(t):
     if is_level(t):
         return all(RE_IDENT.match(k) and raw_keys_ok(e) for k, e in t[1].items())
     if is_list(t):
-        return len(t[1]) <= 10 and all(raw_keys_ok(e) for e in t[1])
-    return isinstance(t, int)
+        return all(raw_keys_ok(e) for e in t[1])
+    return t is None or isinstance(t, int)
 
 
 def reserved_keys(t):
@@ -748,33 +770,47 @@ class Runner:
                         fail("lookup of a present path raised %s" % lk[1])
                     if want is not MISSING and lk[0] == "ok" and plain(lk[1], base) != want:
                         fail("lookup returned %r, the tree holds %r" % (plain(lk[1], base), want))
-        # key iteration lists exactly the leaf paths, and every listed key looks up to the listed value
+        # key iteration lists exactly the leaf paths, and every listed key looks up to the listed value.
+        # The listed keys come from the dotdict itself: they are looked up with the builtin eval (whatever
+        # they look like they must work), and compared with the leaf paths as *paths* (name, indices), not
+        # as text (a list of ten or more mappings is listed with right-aligned indices: 'rows[ 3].v')
         if raw_keys_ok(after[s]):
+            saved = self.m.__dict__.pop("eval", None)
             try:
                 listed = [(k, plain(v, base)) for k, v in d.items()]
-                want = spec_leaves(after[s])
-                if sorted(map(repr, listed)) != sorted(map(repr, want)):
-                    fail("iteration lists %r, the leaf paths are %r" % (listed, want))
                 if [k for k, _ in listed] != list(d.keys()) or [k for k, _ in listed] != list(iter(d)):
                     fail("keys()/iter() differ from items()")
+                paths = []
                 for k, v in listed:
-                    if plain(d[k], base) != v or k not in d:
-                        fail("listed key %r does not look up to the listed value" % k)
-            except OutOfModel:
-                pass
-            except Exception as exc:
-                fail("listed key lookup raised %s" % type(exc).__name__)
+                    try:
+                        if plain(d[k], base) != v or k not in d:
+                            fail("listed key %r does not look up to the listed value" % k)
+                    except Exception as exc:
+                        fail("lookup of the listed key %r raised %s" % (k, type(exc).__name__))
+                    kc = parse_key(k)
+                    if kc is None or not literal(kc):
+                        fail("listed key %r is not a dotted path" % k)
+                    else:
+                        paths.append((path_id(kc, after[s]), repr(v)))
+                want = [(path_id(parse_key(k), after[s]), repr(v)) for k, v in spec_leaves(after[s])]
+                if sorted(paths) != sorted(want) and self.verdict is None:
+                    fail("iteration lists %r, the leaf paths are %r" % (listed, spec_leaves(after[s])))
+            finally:
+                if saved is not None:
+                    self.m.eval = saved
         if comps is None:
             # not a well-formed dotted path: only the generic clauses above apply
             return
         b = before[s]
         had = spec_get(b, comps)
         if op in ("get", "getd", "getattr", "in", "hasattr"):
-            ok = raised is None and res not in ("N", "F")
-            if had is MISSING and ok:
-                fail("%s of an absent path gave %s" % (op, res))
-            if had is not MISSING and not ok:
-                fail("%s of a present path gave %s" % (op, res))
+            if had is MISSING:
+                if raised is None and not (op == "getd" and res == "N") and res != "F":
+                    fail("%s of an absent path gave %s" % (op, res))
+            else:
+                want = "T" if op in ("in", "hasattr") else show_plain(had)
+                if raised is not None or res != want:
+                    fail("%s of a present path gave %s, the tree holds %s" % (op, res, show_plain(had)))
             return
         if op in ("set", "setattr"):
             sv = spec_value(val)
@@ -853,7 +889,7 @@ def show_plain(t):
         return "<" + ",".join(k + "=" + show_plain(e) for k, e in t[1].items()) + ">"
     if is_list(t):
         return "(" + ";".join(show_plain(e) for e in t[1]) + ")"
-    return "i%d" % t
+    return "N" if t is None else "i%d" % t
 
 
 # ------------------------------------------------------------------------------------------------
@@ -878,7 +914,17 @@ def pd(**kw):
 VALUES = [1, 2, -3, 0, pd(b=2), {"d": {"b.c": 3}}, {"d": {"b.c": 3, "b.d": 4, "e": 5}}, pd(),
           lst(1, dd(x=1), lst(dd(w=3))), lst(dd(x=1), dd(y=dd(z=2))), lst(dd(x=1), dd()), lst(), lst(1, 2),
           dd(x=1), dd(), {"d": {"b": {"d": {"c.d": 6}}}}, {"d": {"l": lst(dd(x=7))}},
-          {"d": {"a..b": 1}}, {"d": {"copy": 1}}, {"d": {"b.copy": 1}}, {"d": {"a": 1, "a.b": 2}}]
+          {"d": {"a..b": 1}}, {"d": {"copy": 1}}, {"d": {"b.copy": 1}}, {"d": {"a": 1, "a.b": 2}},
+          None, {"d": {"b": None, "c.d": None}}, lst(None, dd(x=None)), dd(x=None),
+          lst(*[dd(v=i) for i in range(11)]), lst(*[dd(v=i) for i in range(12)] + [dd()])]
+
+# a list of more than ten mappings: key iteration right-aligns the indices ('rows[ 3].v')
+PRELUDE_L = [["set", 0, "rows", lst(*[dd(v=i) if i != 4 else dd(v=4, w=dd(z=None)) for i in range(11)])],
+             ["set", 0, "n", None], ["set", 0, "a.b", None]]
+
+KEYS_L = ["rows[3].v", "rows[ 3].v", "rows[10].v", "rows[ 10].v", "rows[-1].v", "rows[11].v", "rows[ 4].w.z", "rows[4].w",
+          "rows[ 3]", "rows[  3].v", "rows[03].v", "rows[ 3 ].v", "rows[ -1].v", "rows[- 1].v", "rows[3].q", "n", "a.b",
+          "a.x..b", "n.x", "a.b.c", "rows[ 4].w.z.q", "rows", "a"]
 
 KEYS1 = ["a", "a.b", "a.b.c", "a.c.d", "b", ".a", "..a", "...a", ".a.b", "a..b", "a.b..c", "a.x..b", "a.b.c...x",
          "a...a.b", "a.....a.b", "a...b", "a.b...a", "a.", "a..", "a.b..", "a.b...", "a.b.", ".", "..", "", "a.b.c.d....x",
@@ -945,7 +991,7 @@ def rand_comp(rng, listy, xprob=0.0):
         return rng.choice(["a", "a", "l", "m"]) + "[%s]" % rng.choice(XIDX)
     name = rng.choice(NAMES)
     if (name in ("l", "m") and rng.random() < listy) or rng.random() < 0.04:
-        name += "[%d]" % rng.choice([0, 0, 1, 1, 2, -1, 3, -3])
+        name += ("[ %d]" if rng.random() < 0.05 else "[%d]") % rng.choice([0, 0, 1, 1, 2, -1, 3, -3, 10])
         if rng.random() < 0.12:
             name += "[%d]" % rng.choice([0, 1, -1])
     return name
@@ -980,13 +1026,16 @@ def rand_key_any(rng, used, xprob=0.0):
 def rand_tree(rng, depth):
     n = rng.randint(0, 3)
     return {"t": {rng.choice(["x", "y", "z", "w"]): (rand_tree(rng, depth - 1) if depth > 0 and rng.random() < 0.3
-                                                     else rng.randint(0, 9)) for _ in range(n)}}
+                                                     else rng.choice([None] + list(range(10)))) for _ in range(n)}}
 
 
 def rand_value(rng):
     r = rng.random()
+    if r < 0.03:
+        # more than ten mappings in a list: two-digit, right-aligned indices in the listed keys
+        return {"l": [rand_tree(rng, 0) if rng.random() < 0.7 else {"t": {"v": i}} for i in range(rng.randint(11, 13))]}
     if r < 0.4:
-        return rng.choice([0, 1, 2, 5, -1, 7])
+        return rng.choice([0, 1, 2, 5, -1, 7, None, None])
     if r < 0.55:
         return rng.choice(VALUES)
     if r < 0.75:
@@ -1051,7 +1100,7 @@ def rand_case(rng, stream):
             used.append(comps)
         elif r < 0.47:
             v = rand_value(rng)
-            while isinstance(v, int) or "l" in v:
+            while v is None or isinstance(v, int) or "l" in v:
                 v = rand_value(rng)
             ops.append(["update", s, "", v])
         elif r < 0.5:
@@ -1118,6 +1167,8 @@ class C16(Suite):
             "grid assigned at each of 16 keys then looked up; seeded random sequences of 2-12 operations over two slots "
             "(keys derived from earlier keys with '..' detours, plain-dict / list / dotdict values, copy and deepcopy), "
             "a copy-focused stream and a malformed-key stream (random strings over names, dots, brackets, digits); "
+            "a grid over a list of eleven mappings and stored None values (right-aligned listed keys such as rows[ 3].v, "
+            "setdefault/get/in on paths that hold None), None among the random values and lists of 11-13 mappings; "
             "an index-expression grid and stream (keys such as a[a[0].b-1].b, a[sel.idx+1].b over a tree whose values serve "
             "as indices; present, absent, mistyped and out-of-range references); "
             "a heap stream (random nested dotdict/list trees, copy.copy, one assignment through the copy at a random "
@@ -1131,7 +1182,7 @@ class C16(Suite):
         "at dots textually: d['l[a.b]'] raises ValueError); del/pop are not required to address through index expressions "
         "(documented as not implemented)",
         "values stored are ints, lists and dotdicts (plain dicts inside lists are not converted by the code and are not generated)",
-        "lists of mappings have at most 10 elements in the precise key-listing clause (longer lists are listed with space-padded indices)",
+        "values stored are ints, None, lists and dotdicts",
         "getattr/hasattr are exercised on keys that are not attributes of the class (the others never reach __getattr__)",
         "each operation is given freshly built values; objects returned by the API are not re-inserted (no aliasing made by the caller)",
         "KNOWN FINDING: keys that reduce to one leading dot and a single component ('.c', '...c', 'a...c') are resolved to that "
@@ -1169,6 +1220,13 @@ class C16(Suite):
             for op in ("set", "setdefault"):
                 for val in (77, pd(q=8)):
                     yield {"stream": "xgrid", "ops": PRELUDE_X + [[op, 0, key, val], ["get", 0, key, 0], ["in", 0, key, 0]] + TAIL}
+        # more than ten mappings in a list, and stored None values
+        for key in KEYS_L:
+            for op in KEYOPS:
+                yield {"stream": "lgrid", "ops": PRELUDE_L + [fix_attr([op, 0, key, 0])] + TAIL}
+            for op in ("set", "setdefault", "setattr"):
+                for val in (7, None, pd(q=8)):
+                    yield {"stream": "lgrid", "ops": PRELUDE_L + [[op, 0, key, val], ["get", 0, key, 0], ["in", 0, key, 0]] + TAIL}
         # copy independence through every kind of path
         for cp in ("copy", "deepcopy"):
             for key in KEYS1:
@@ -1189,8 +1247,8 @@ class C16(Suite):
         # flags: _resolve as it is (0), reserved names refused for intermediate levels (1)
         toks = []
         for op, s, key, val in c["ops"]:
-            v = wire(val) if op in ("set", "setattr", "setdefault", "update", "popd") else ""
-            toks.append("%s/%d/%s/%s" % (op, s, key, v))
+            v = wire(val).replace(" ", "@") if op in ("set", "setattr", "setdefault", "update", "popd") else ""
+            toks.append("%s/%d/%s/%s" % (op, s, key.replace(" ", "@"), v))
         return "dd 01 " + " ".join(toks)
 
     def impl_heap(self, c):
@@ -1277,7 +1335,7 @@ class C16(Suite):
         if len(body) != len(ops):
             yield {**c, "ops": body}
         for i, (op, s, key, val) in enumerate(body):
-            if not isinstance(val, int):
+            if val is not None and not isinstance(val, int):
                 for sub in ([1] + (list(val.get("l", [])) if "l" in val else [])):
                     yield {**c, "ops": body[:i] + [[op, s, key, sub]] + body[i + 1:]}
                 for fld in ("d", "t"):
